@@ -30,18 +30,29 @@ static void snapshot (char *buf, size_t n) {
 	}
 }
 
+/* C16(a): a debug-state function may take and drop the queue spinlock, nothing else */
+static void monitor (volatile void *p, uint32_t o, uint32_t n, const char *file, int line) {
+	size_t L = strlen (file);
+	if (p == (volatile void *) &mu.word && L >= 7 && strcmp (file + L - 7, "debug.c") == 0 && ((o ^ n) & ~2u) != 0) {
+		vrt_fail ("C16", "debug-state function wrote the mutex word %u -> %u at debug.c:%d: bits other than the "
+			  "queue spinlock changed (lock ownership / wake-up flags clobbered)", o, n, line);
+	}
+}
+
 static void section (int writer) {
 	vrt_acquired (&mu, writer);
 	if (writer) { data[0]++; data[1] = data[0]; total_w++; }
 	else if (data[0] != data[1]) vrt_fail ("C01", "reader saw a half-done write section");
-	if (vrt_rand (3) == 0) vrt_point ("in-section");
+	if (vrt_rand (3) == 0 || vrt_opt ("DEBUGGER", 0)) vrt_point ("in-section");
 	vrt_releasing (&mu, writer);
 }
 
 static void worker (void *a) {
 	int k, n = 2 + (int) vrt_rand (3);
+	int dbg = vrt_opt ("DEBUGGER", 0);
+	if (dbg) n = 4;
 	for (k = 0; k < n; k++) {
-		switch (vrt_rand (6)) {
+		switch (dbg ? vrt_rand (4) : vrt_rand (6)) {
 		case 0: case 1:
 			nsync_mu_lock (&mu); section (1); nsync_mu_unlock (&mu); break;
 		case 2: case 3:
@@ -62,8 +73,8 @@ static void worker (void *a) {
 static void debugger (void *a) {
 	int k;
 	char buf[160];
-	for (k = 0; k < 3; k++) {
-		if (vrt_rand (2)) nsync_mu_debug_state_and_waiters (&mu, buf, (int) sizeof (buf));
+	for (k = 0; k < 8; k++) {
+		if (vrt_rand (4)) nsync_mu_debug_state_and_waiters (&mu, buf, (int) sizeof (buf));
 		else nsync_mu_debug_state (&mu, buf, (int) sizeof (buf));
 		vrt_count ("debug_call");
 	}
@@ -74,6 +85,7 @@ int main (void) {
 	static char names[8][8];
 	vrt_register (&mu, sizeof (mu), "mu0");
 	vrt_set_snapshot (snapshot);
+	vrt_set_write_monitor (monitor);
 	for (i = 0; i < n; i++) {
 		snprintf (names[i], 8, "t%d", i);
 		vrt_thread (names[i], worker, i == 0 ? (void *) 1 : NULL);
